@@ -269,7 +269,9 @@ def op_rename_out(rng, spec):
     g = [(p, t) for p, t in _genrules(spec) if t.get("dir") is None]
     if not g:
         return None
-    p, t = rng.choice(g)
+    anon = [(p, t) for p, t in g if t.get("anon")]
+    # (a rename that leaves the bytes untouched is the interesting half: only the name tells the difference)
+    p, t = rng.choice(anon) if anon and rng.chance(0.6) else rng.choice(g)
     i = rng.intn(len(t["outs"]))
     old = t["outs"][i]
     t["outs"][i] = "%s_r%d.out" % (t["name"], rng.intn(1000))
